@@ -3,7 +3,7 @@
     Atoms are compared with [atom_eqb] (on [None] and [str] that is equality;
     two numbers are equal when their texts are), exactly the comparison the
     Python dictionaries perform in the modelled domain. *)
-From PM Require Export Impl.Graph Impl.Model.
+From PM Require Export Impl.Graph Impl.Model Impl.Errors Impl.Interpret.
 
 (* v is the source of some triple of g *)
 Definition is_source (g : graph) (v : atom) : Prop :=
@@ -33,3 +33,32 @@ Definition tmem (t : triple) (ts : list triple) : bool := existsb (triple_eqb t)
 (* has_role, said directly: defined, or a single inversion of a defined role *)
 Definition role_defined (m : model) (r : str) : Prop :=
   has_exact m r = true \/ exists r0, r = r0 ++ OF /\ has_exact m r0 = true.
+
+(* message [msg] is listed under context [k] of an error report *)
+Definition reported (e : errdict) (k : ctx) (msg : emsg) : Prop :=
+  exists l, dget ctx_eqb k e = Some l /\ In msg l.
+
+(** Domain restriction N8 (decoded graphs): no NODE-target branch of the tree
+    writes an instance triple, i.e. the concept role is not spelled literally
+    (":instance", or ":instance-of" under a model that deinverts it, with or
+    without a role alignment) on a branch whose target is a node.  The library
+    itself cannot re-encode such a graph. *)
+(* the role of the triple written by a branch, as it appears in the graph *)
+Definition final_role (m : model) (role' : str) : str :=
+  ensure_colon (trole (deinvert m (ANone, role', ANone))).
+(* a node-target branch does not produce an instance triple *)
+Definition node_role_ok (m : model) (role : str) : bool :=
+  match process_role role with
+  | Ok (role', _) => negb (str_eqb (final_role m role') INSTANCE)
+  | _ => true
+  end.
+Fixpoint edges_not_instance (m : model) (n : node) : bool :=
+  match n with
+  | Node _ bs =>
+      (fix go (bs : list branch) : bool :=
+         match bs with
+         | [] => true
+         | (role, TAtom _) :: bs' => go bs'
+         | (role, TNode n') :: bs' => node_role_ok m role && edges_not_instance m n' && go bs'
+         end) bs
+  end.
